@@ -38,6 +38,10 @@ def cmdOf? : List String → Option Cmd
   | ["alloc", l, sz] => match l.toNat?, sz.toNat? with
     | some l, some sz => some (.alloc l sz) | _, _ => none
   | ["free", l] => l.toNat?.map .free
+  | ["realloc", l, n, sz] => match l.toNat?, n.toNat?, sz.toNat? with
+    | some l, some n, some sz => some (.realloc l n sz) | _, _, _ => none
+  | ["realloc-fail", l, sz] => match l.toNat?, sz.toNat? with
+    | some l, some sz => some (.reallocFail l sz) | _, _ => none
   | ["expect", n] => n.toNat?.map .expectLeaks
   | ["ignore"] => some .ignoreLeaks
   | ["fail"] => some .fail
@@ -58,6 +62,20 @@ def execAndRender (d : DState) (exec : World → Cmd → World) (c : Cmd) (obs :
     else ({ d with w := exec w c }, [s!"num {w.det.seq}"])
   | .free id =>
     if d.w.det.isLive id then ({ d with w := exec d.w c }, ["ok"]) else ({ d with w := exec d.w c }, ["nolive"])
+  | .realloc id newId _ =>
+    -- global mode: only malloc'ed blocks can be realloc'ed; the harness skips the others (the
+    -- model does not track the allocation family)
+    if obs.contains ["badkind"] then (d, ["badkind"])
+    else
+      let w := match d.global, obsNum obs with
+        | true, some n => exec d.w (.envSeq n)
+        | _, _ => d.w
+      if !w.det.isLive id then ({ d with w := w }, ["nolive"])
+      else if newId != id && w.det.isLive newId then ({ d with w := w }, ["dup"])
+      else ({ d with w := exec w c }, [s!"num {w.det.seq}"])
+  | .reallocFail id _ =>
+    if obs.contains ["badkind"] then (d, ["badkind"])
+    else if d.w.det.isLive id then ({ d with w := exec d.w c }, ["ok"]) else ({ d with w := exec d.w c }, ["nolive"])
   | _ => ({ d with w := exec d.w c }, ["ok"])
 
 def sortRecs (l : List Rec) : List Rec :=
@@ -148,6 +166,22 @@ def specStep (sh : Shadow) (o : Proto.Op) : Except String Shadow := do
       if sh.live.any (·.num == n) then throw s!"allocation number {n} handed out twice"
       return { sh with live := b :: sh.live, mine := if sh.inWindow then b :: sh.mine else sh.mine }
     | none => return sh                    -- skipped / dup: not performed
+  | "cmd" :: _ :: "realloc" :: l :: nl :: sz :: _ =>
+    -- a successful realloc releases the old block and is a new allocation of the running test
+    if o.obs.contains ["unexpected-realloc-result"] then throw "a scripted realloc returned NULL although the platform realloc succeeded, or a block although it failed"
+    match obsNum o.obs with
+    | some n =>
+      let l ← natOf l
+      let b : Blk := { label := ← natOf nl, num := n, size := ← natOf sz }
+      if sh.live.any (·.num == n) then throw s!"allocation number {n} handed out twice"
+      let live := sh.live.filter (·.label != l)
+      let mine := sh.mine.filter (·.label != l)
+      return { sh with live := b :: live, mine := if sh.inWindow then b :: mine else mine }
+    | none => return sh
+  | "cmd" :: _ :: "realloc-fail" :: _ =>
+    -- a failed realloc changes nothing: the old block stays what and whose it was
+    if o.obs.contains ["unexpected-realloc-result"] then throw "a scripted realloc returned NULL although the platform realloc succeeded, or a block although it failed"
+    return sh
   | "cmd" :: _ :: "free" :: l :: _ =>
     if o.obs.contains ["ok"] then
       let l ← natOf l
